@@ -671,6 +671,7 @@ func runSplit(res *Result, d *Driver, g *Rng, tier, prop string) {
 		}
 	}
 	func() {
+		defer sweepPools()() // and not by whoever is handed the pooled buffers next
 		// results handed out earlier must not have been touched by any later call
 		for _, h := range sc.held {
 			for i, p := range h.parts {
